@@ -21,5 +21,10 @@ Definition qmedian (l : list Q) : Q :=
 Definition qsum (l : list Q) : Q := fold_right Qplus 0 l.
 Definition qmean (l : list Q) : Q := qsum l / inject_Z (Z.of_nat (length l)).
 
+(* Series.min() / Series.max() and min-max normalisation *)
+Definition qmin (l : list Q) : Q := fold_right (fun x m => if Qle_bool x m then x else m) (hd 0 l) l.
+Definition qmax (l : list Q) : Q := fold_right (fun x m => if Qle_bool m x then x else m) (hd 0 l) l.
+Definition minmax (lo hi x : Q) : Q := (x - lo) / (hi - lo).
+
 (* a rational in lowest terms: the harness only writes such literals *)
 Definition reduced (x : Q) : Prop := Qred x = x.
